@@ -22,7 +22,25 @@ CAUGHT = {
  'C18-1': ('C18', 'repaired tree'), 'C18-2': ('C18 (and C06)', 'repaired tree; check strengthened with the pristine-twin comparison'),
  'C19-1': ('C19', 'repaired tree'), 'C19-2': ('C19', 'repaired tree'), 'C20-1': ('C20', 'repaired tree; check strengthened with 64-channel count instances'), 'C20-2': ('C20', 'repaired tree'),
 }
-for d in sorted(glob.glob(os.path.join(V, 'seeded', '*'))):
+# later waves: the detection result comes from the last full sweep (tools/sweep_seeded.sh -> seeded/SWEEP.txt); STRENGTHENED names the class of
+# instances that was added to the check after the change was first missed (DESIGN.md I.9 / I.10)
+STRENGTHENED = {
+ 'C01-4': 'BatchNorm with generic eps; eps no longer copied by the harness', 'C02-5': 'written_params: coefficients written through .data into an evaluated model', 'C02-6': 'program M1A',
+ 'C03-6': 'nested choice blocks', 'C04-6': 'discrete_cost switched on in a later phase', 'C05-5': 'program MR', 'C06-6': 'Gumbel + hard + eval mode', 'C07-6': 'mixed-mode models, BatchNorm stem',
+ 'C08-5': 'program O1 (dict / nested outputs)', 'C09-5': 'program W2', 'C09-6': 'program A2', 'C10-5': 'summary/export before the forward pass, per-channel, arg-max oracle',
+ 'C10-6': 'combiner re-sampled after an update (written_params)', 'C11-6': 'pattern of the recorded finding narrowed to the two calls it describes', 'C12-5': 'per-channel 0-bit instances under hard sampling',
+ 'C13-5': 'quantizer observed after an earlier call on the same Parameter', 'C14-5': 'integer network built right after a checkpoint is loaded', 'C14-6': 'nets whose only large biases are negative',
+ 'C17-4': 'train_net_only prefix; requires_grad kept by symbolify', 'C17-5': 'storage aliasing kept by symbolify; per-layer temperatures', 'C18-5': 'PIT config with an excluded layer and full_cost',
+ 'C19-6': 'integer-typed targets', 'C20-3': 'recorded greedy as an executable reference (unrecorded| keys)', 'C20-4': 'canonical score model with per-assignment keys',
+}
+SWEEP = {}
+sp = os.path.join(V, 'seeded', 'SWEEP.txt')
+if os.path.exists(sp):
+    for line in open(sp):
+        parts = line.split()
+        if parts:
+            SWEEP[parts[0]] = line.strip()
+for d in sorted(glob.glob(os.path.join(V, 'seeded', 'C*'))):
     sid = os.path.basename(d)
     mp = os.path.join(d, 'meta.json')
     if not os.path.exists(mp):
@@ -43,6 +61,13 @@ for d in sorted(glob.glob(os.path.join(V, 'seeded', '*'))):
         meta['detected_on'] = CAUGHT[sid][1]
         meta['how_run'] = f'tools/try_mutant.sh seeded/{sid} {CAUGHT[sid][0].split()[0]}  (git -C /repo apply; ./check <id>; git -C /repo checkout -- .)' if 'pinned' not in CAUGHT[sid][1] else \
             f'git -C <scratch worktree of bfd6014> apply seeded/{sid}/patch.diff; VERIF_REPO=<worktree> ./check {CAUGHT[sid][0].split()[0]}'
+    if sid not in CAUGHT and sid in SWEEP:
+        line = SWEEP[sid]
+        meta['detected_by_check'] = sid.split('-')[0] if ' viol=0 ' not in line and 'viol=' in line else None
+        meta['sweep_result'] = line
+        meta['how_run'] = 'tools/sweep_seeded.sh: scratch worktree of /repo HEAD with the change applied, VERIF_REPO=<worktree> ./check <property> --tier quick'
+        if sid in STRENGTHENED:
+            meta['check_strengthened_with'] = STRENGTHENED[sid]
     json.dump(meta, open(mp, 'w'), indent=1)
     for junk in ('demo_base.log', 'demo_mut.log', 'tests_mut.log'):
         pth = os.path.join(d, junk)
